@@ -30,7 +30,8 @@ Inductive ccase : Type :=
 | CTxt (txt : bytes) (l : lexres) (r : tres)       (* (ii) PLY token stream, (iii) michelson_to_micheline outcome *)
 | CName (t : byte) (n : option bytes)              (* tags.py, tag -> name *)
 | CTag (n : bytes) (t : option byte)               (* tags.py, name -> tag *)
-| CFramed (n : bytes) (a : bool) (r : bool).       (* is_framed *)
+| CFramed (n : bytes) (a : bool) (r : bool)        (* is_framed *)
+| CDom (e : node) (r : bool).                      (* the harness's domain predicate = michelson_expr *)
 Definition chk (c : ccase) : bool :=
   match c with
   | CFmt e inline txt => bytes_eqb (format_text inline e) txt && lexres_eqb (lex txt) (LexOk (fmt_tokens e))
@@ -38,6 +39,7 @@ Definition chk (c : ccase) : bool :=
   | CName t n => option_eqb bytes_eqb (name_of_tag t) n
   | CTag n t => option_eqb byte_eqb (tag_of_name n) t
   | CFramed n a r => Bool.eqb (is_framed n a) r
+  | CDom e r => Bool.eqb (michelson_expr e) r
   end.
 '''
 
@@ -828,6 +830,10 @@ def run(ctx: lib.Ctx) -> None:
         ctx.case(key, nontrivial=size(e) >= 3, kind=kind, sample={'kind': kind, 'expr': e} if size(e) < 12 else None)
         lit = cnode(e)
         cls = finding_class(e)
+        if lit is not None:
+            # the oracle's domain (in_domain, outside the finding classes) is the theorem's domain michelson_expr
+            cases.append(f'CDom {lit} {lib.cbool(in_domain(e) and not cls)}')
+            meta.append(('dom', e))
         seen_text = set()
         for inline in (True, False):
             okf, text = py_format(e, inline)
@@ -923,7 +929,7 @@ def run(ctx: lib.Ctx) -> None:
     bad = ctx.coq_mismatches('c', IMPORTS, 'chk', 'Bool.eqb', 'ccase', 'bool', [(c, 'true') for c in cases],
                              prelude=PRELUDE, shard=(1200 if ctx.thorough else max(250, -(-len(cases) // 12))))
     ctx.extra['correspondence_mismatches'] = len(bad)
-    ctx.extra['cases_by_kind'] = {k: sum(1 for m in meta if m[0] == k) for k in ('table', 'fmt', 'txt')}
+    ctx.extra['cases_by_kind'] = {k: sum(1 for m in meta if m[0] == k) for k in ('table', 'fmt', 'txt', 'dom')}
     ctx.extra['timing_s'] = {'expressions+oracle': round(t_expr - t_start, 1), 'texts': round(t_texts - t_expr, 1),
                              'coqc': round(time.time() - t_texts, 1)}
 
@@ -933,6 +939,9 @@ def run(ctx: lib.Ctx) -> None:
         rep = {'correspondence': 'C18/format.py+parse.py vs Codec.Printer/Lexer/Parser',
                'disagreements': {k: kinds.count(k) for k in set(kinds)},
                'tables': [meta[i][1] for i in bad if meta[i][0] == 'table'][:10]}
+        first_dom = next((meta[i] for i in bad if meta[i][0] == 'dom'), None)
+        if first_dom:
+            rep.update({'domain_expr': first_dom[1], 'harness_in_domain': in_domain(first_dom[1])})
         first_fmt = next((meta[i] for i in bad if meta[i][0] == 'fmt'), None)
         first_txt = next((meta[i] for i in bad if meta[i][0] == 'txt'), None)
         if first_fmt:
